@@ -25,14 +25,16 @@ func newEffectSet() *effectSet {
 }
 
 func (e *effectSet) addCell(T types.Type) {
-	if a, ok := T.Underlying().(*types.Array); ok {
-		e.addArr(a.Elem())
+	if _, ok := T.Underlying().(*types.Array); ok {
+		e.addArr(T)
 		return
 	}
 	k := "c:" + typeKey(T)
 	e.kinds[k] = effComp{'c', T}
 }
-func (e *effectSet) addArr(E types.Type) { e.kinds["a:"+typeKey(E)] = effComp{'a', E} }
+
+// addArr: T is a slice or array type; the component is its class (classes.go).
+func (e *effectSet) addArr(T types.Type) { e.kinds["a:"+typeKey(T)] = effComp{'a', T} }
 func (e *effectSet) addMap(M types.Type) { e.kinds["m:"+typeKey(M)] = effComp{'m', M} }
 
 func (e *effectSet) union(o *effectSet) bool {
@@ -128,21 +130,27 @@ func (P *Program) localEffectsBlocks(blocks []*ssa.BasicBlock) (*effectSet, []*s
 			case *ssa.Store:
 				r := rootOfAddr(x.Addr)
 				if ia, ok := r.(*ssa.IndexAddr); ok {
-					e.addArr(ia.X.Type().Underlying().(*types.Slice).Elem())
+					e.addArr(ia.X.Type())
+				} else if _, isArr := arrayOfPtr(r.Type()); isArr {
+					e.addArr(P.arrayTypeOf(r))
 				} else if pt, ok := r.Type().Underlying().(*types.Pointer); ok {
 					e.addCell(pt.Elem())
 				}
 			case *ssa.Alloc:
-				e.addCell(x.Type().Underlying().(*types.Pointer).Elem())
+				if _, isArr := arrayOfPtr(x.Type()); isArr {
+					e.addArr(P.allocArrayType(x))
+				} else {
+					e.addCell(x.Type().Underlying().(*types.Pointer).Elem())
+				}
 			case *ssa.MakeSlice:
-				e.addArr(x.Type().Underlying().(*types.Slice).Elem())
+				e.addArr(x.Type())
 			case *ssa.MakeMap:
 				e.addMap(x.Type())
 			case *ssa.MapUpdate:
 				e.addMap(x.Map.Type())
 			case *ssa.Convert:
 				if isByteSlice(x.Type()) {
-					e.addArr(types.Typ[types.Byte])
+					e.addArr(x.Type())
 				}
 			case *ssa.Go:
 				e.all = true
@@ -164,8 +172,8 @@ func (P *Program) localEffectsBlocks(blocks []*ssa.BasicBlock) (*effectSet, []*s
 				case *ssa.Builtin:
 					switch cal.Name() {
 					case "append", "copy":
-						if s, ok := c.Args[0].Type().Underlying().(*types.Slice); ok {
-							e.addArr(s.Elem())
+						if _, ok := c.Args[0].Type().Underlying().(*types.Slice); ok {
+							e.addArr(c.Args[0].Type())
 						}
 					case "delete":
 						e.addMap(c.Args[0].Type())
@@ -212,7 +220,7 @@ func (P *Program) shallowEffects(e *effectSet, sig *types.Signature) {
 		case *types.Pointer:
 			e.addCell(u.Elem())
 		case *types.Slice:
-			e.addArr(u.Elem())
+			e.addArr(t)
 		}
 	}
 	for i := 0; i < sig.Params().Len(); i++ {
@@ -239,7 +247,7 @@ func (P *Program) contractEffects(e *effectSet, con *Contract, sig *types.Signat
 		case *types.Pointer:
 			e.addCell(u.Elem())
 		case *types.Slice:
-			e.addArr(u.Elem())
+			e.addArr(sig.Results().At(i).Type())
 		}
 	}
 }
